@@ -337,11 +337,103 @@ def run(ctx):
             if mres is not None and len(mres) == len(rs):
                 ctx.compare('reference LIKE matcher: model = python transcription', desc, ''.join(mres),
                             ''.join('1' if ref_like(dc[0], dc[1], r, False) else '0' for r in rs))
+    run_columns(ctx)
     # the recorded finding's witness, replayed on the implementation every run
     for d in ('mysql', 'postgres'):
         dc = decode_clause(d, impl_clause('startswith', '\n', d))
         if dc is not None and len(dc[1]) == 1 and ref_like(dc[0], dc[1], 'n', False):
             report(ctx, d, 'startswith', '\n', 'n', True, False, 'decoded pattern %r' % dc[0])
+
+
+
+# ------------------------------------------------------------------ every string column declaration, executed on SQLite
+COL_ALPHA = [' ', 'a', 'B', '%', '_', "'", '\\']
+_cols = {}
+
+
+def cols_env():
+    """one class per way of declaring a text column; the argument passes through the column's from_python before it
+    reaches the LIKE helpers, so the property must hold for each declaration (TEXT, VARCHAR(n), CHAR(n), unicode, notNone,
+    a column added after class creation, a column inherited from a parent class)"""
+    if _cols:
+        return _cols
+    sqlo.setup()
+    from sqlobject import SQLObject, StringCol, UnicodeCol
+    conn = sqlo.mem_conn()
+    rows = [''] + [''.join(t) for n in (1, 2) for t in itertools.product(COL_ALPHA, repeat=n)] + \
+        ['a  ', '  a', ' a ', 'a b', '%  ', 'ab ', ' ab', 'a% ', "' '", '   ', 'a_ ', '\\ ']
+    decls = [('TEXT', lambda: StringCol(default=None)),
+             ('VARCHAR(8)', lambda: StringCol(length=8, default=None)),
+             ('CHAR(8)', lambda: StringCol(length=8, varchar=False, default=None)),
+             ('CHAR(8) notNone', lambda: StringCol(length=8, varchar=False, notNone=True, default='')),
+             ('unicode TEXT', lambda: UnicodeCol(default=None)),
+             ('unicode CHAR(8)', lambda: UnicodeCol(length=8, varchar=False, default=None))]
+    classes = []
+    for name, mk in decls:
+        cls = type(sqlo.uniq('C17C'), (SQLObject,), {'_connection': conn, 'c': mk()})
+        classes.append((name, cls))
+    # declared after class creation
+    late = type(sqlo.uniq('C17C'), (SQLObject,), {'_connection': conn})
+    late.sqlmeta.addColumn(StringCol(name='c', length=8, varchar=False, default=None))
+    classes.append(('CHAR(8) added by addColumn', late))
+    # inherited from a parent class (plain python inheritance of the column declaration)
+    base = type(sqlo.uniq('C17C'), (SQLObject,), {'_connection': conn, 'c': StringCol(length=8, varchar=False, default=None)})
+    child = type(sqlo.uniq('C17C'), (base,), {'_connection': conn})
+    classes.append(('CHAR(8) declared on the parent class', child))
+    ids = {}
+    for name, cls in classes:
+        cls.createTable()
+        m = {}
+        for r in rows:
+            # raw INSERT with bound parameters: what is stored does not depend on the library's converters
+            c = conn.getConnection()
+            try:
+                cur = c.cursor()
+                cur.execute('INSERT INTO %s (c) VALUES (?)' % cls.sqlmeta.table, (r,))
+                m[cur.lastrowid] = r
+                c.commit()
+            finally:
+                conn.releaseConnection(c)
+        ids[name] = m
+    _cols.update(conn=conn, classes=classes, ids=ids, rows=rows)
+    return _cols
+
+
+def run_columns(ctx):
+    e = cols_env()
+    rng = ctx.rng
+    args = [''] + [''.join(t) for n in (1, 2) for t in itertools.product(COL_ALPHA, repeat=n)] + \
+        ['a  ', '  ', '   ', ' a ', 'a% ', '% ', '_ ', "' ", '\\ ', 'ab ', ' ab', 'a b', 'B ', 'a\t', 'a\n ']
+    for _ in range(ctx.budget(60, 4000)):
+        args.append(''.join(rng.choice(COL_ALPHA + [' ', ' ']) for _ in range(rng.randint(1, 4))))
+    for i, a in enumerate(args):
+        for op in OPS:
+            for name, cls in e['classes']:
+                m = e['ids'][name]
+                desc = {'dialect': 'sqlite', 'column': name, 'op': op, 'arg': enc(a)}
+                ctx.case(('col', name, op, a), nontrivial=(' ' in a or '%' in a or '_' in a), kind='column:' + name)
+
+                def selected(x):
+                    try:
+                        return set(m[r[0]] for r in cls._connection.queryAll(
+                            cls._connection.sqlrepr(cls.select(build(op, cls.q.c, x)).queryForSelect().newItems([cls.q.id]))))
+                    except Exception as ex:
+                        return 'error:%s' % sqlo.exc_name(ex)
+                got = selected(a)
+                want = set(r for r in m.values() if py_pred(op, a, r, True))
+                if got != want:
+                    def bad(x):
+                        g = selected(x)
+                        return g != set(r for r in m.values() if py_pred(op, x, r, True))
+                    ma = c02.minimise(a, bad)
+                    g = selected(ma)
+                    w = set(r for r in m.values() if py_pred(op, ma, r, True))
+                    row = '' if isinstance(g, str) else sorted(g ^ w, key=lambda r: (len(r), r))[0]
+                    ctx.oracle_fail('C17:sqlite:column %s:%s:arg=%s:row=%s' % (name, op, enc(ma), enc(row)),
+                                    'on a column declared %s, %s(%r) %s' % (
+                                        name, op, ma, ('raises ' + g) if isinstance(g, str) else
+                                        ('%s row %r, literally it should %s' % ('selects' if row in g else 'does not select', row,
+                                                                                'not be selected' if row in g else 'be selected'))), desc)
 
 
 def replay(case):
